@@ -271,7 +271,7 @@ def run(ctx):
     ctx.assume('printed precision: %10.3e -> 5e-4 relative, %10.3f -> 5e-4 absolute', 'selectors whose threshold equals an attained value are skipped (C05 don\'t-care)',
                'parameter values are position-encoding: (model+1)*10^column, so any row mix-up is visible at printed precision')
     ctx.require_events('FitInfo.filter_table:post', 'text:labels-used', 'text:write_parameters', 'text:write_parameter_ranges', 'text:extract_parameters', 'plot_params:table-checked', 'plot_params_2d:points-checked', 'plot_params_1d:histogram-checked', 'history:other-package-fitted-in-between')
-    ctx.require_regimes('perm:identity', 'perm:reversed', 'perm:random', 'perm:name-sorted', 'selected:0', 'selected:1', 'selected:all', 'additional', 'additional:several', 'parameter:nan', 'extract:subset',
+    ctx.require_regimes('additional:ints-and-floats', 'perm:identity', 'perm:reversed', 'perm:random', 'perm:name-sorted', 'selected:0', 'selected:1', 'selected:all', 'additional', 'additional:several', 'parameter:nan', 'extract:subset',
                         'input:file', 'input:object', 'input:list')
     n_pk = 8 if ctx.quick else 40
     did_plot = False
@@ -354,7 +354,11 @@ def run(ctx):
                 ctx.regime('input:' + form)
                 additional = {}
                 if (isel + ip) % 3 == 0:
-                    additional = {'ZETA': {n: float(1000 + 7 * i) for i, n in enumerate(names)}}
+                    # values as a user types them: some whole numbers given as Python ints (the best-fit model's among them), the
+                    # others non-integer floats
+                    best_names = set(str(r_['model_name'][0]).strip() for r_ in rr if len(r_['model_name']))
+                    additional = {'ZETA': {n: (int(1000 + 7 * i) if (n in best_names or i % 3 == 0) else float(1000 + 7 * i) + 0.37) for i, n in enumerate(names)}}
+                    ctx.regime('additional:ints-and-floats')
                     if (isel + ip) % 2 == 0:      # several, in non-alphabetical key order
                         additional['ALPHA'] = {n: float(-(3 + i) * 11) for i, n in enumerate(names)}
                         additional['MID'] = {n: float(0.5 + i) for i, n in enumerate(names)}
